@@ -145,9 +145,13 @@ func (p *party) HandleErrorMessage(code otr3.ErrorCode) []byte {
 	return []byte(fmt.Sprintf("E%d", int(code)))
 }
 
+// events of the most recent API call (for oracles)
+var lastEvents string
+
 func (p *party) drainEvents() string {
 	s := "[" + strings.Join(p.events, ",") + "]"
 	p.events = nil
+	lastEvents = s
 	return s
 }
 
